@@ -6,6 +6,9 @@ TECH = "deterministic simulation with fault injection"
 NOTE_COMMON = ("Trusted base: the go/ast instrumenter (tools/instrument) and the sim packages (sim/simrt, simsync, simfs, simclock, simexec, simwire) reproduce the semantics of the constructs they replace; "
                "the oracle/reference model written in sim/engine; Go toolchain go1.26.8. Seeded search: a clean batch is evidence, not proof. ")
 CHECKS = {
+ "C17": dict(level="exploration", design="5.17",
+   text="Claimed for the history-dependent part of the property. Full-server simulation with 1..3 open documents sharing the server's process-global token cache: seeded histories interleave edits, didClose/re-open and semanticTokens full / range / full/delta requests whose previousResultId is current, stale (including ids from before a close), another document's, garbage or empty. A client-side model keeps the array a client would hold and checks: the array rebuilt from delta answers equals a full result requested right afterwards; a range answer equals the full result restricted to the requested lines; a delta is only ever returned against the id the server issued last for that URI; ids are not reused; streams are decodable (multiple of 5, no wrapped fields, lines inside the text, types inside the advertised legend).",
+   note="NOT claimed: that each token covers exactly its lexeme (pure function of the text); tokens that overlap or swallow the CR of a CRLF line end are counted as an unclaimed by-product in the evidence, never a verdict. The explicit range 0:0-0:0 (open C01 finding) is not generated so that the client's text model stays exact."),
  "C19": dict(level="exploration", design="5.19",
    text="Full-server simulation in which the second party is simulated: the server ASKS the client for its configuration from a background goroutine and applies the answer when it comes. The simulated client answers with generated payloads of every shape the property names (per documented key: right type, number as string, integral and non-integral float, boolean as string, null, array, object, zero, negative, unknown keys, nested/dotted spelling, with/without wrapper, non-object payloads), or with an error, with [], late, never, with up to two refreshes in flight, under 7 schedule policies. An independent ~120-line settings model predicts the acceptable value set per key and is compared ONLY through behaviour probes at quiescence (capabilities, completion count/matching/details, formatting and inline-completion layout, diagnostic codes, limit numbers in include diagnostics); every event is followed by requests that must be answered.",
    note="One open known finding: with two refreshes in flight, answers that set the same key are applied in goroutine order, not in the order the client sent them (class reply-order: recognised by re-evaluating the observation against the model with the overlapping replies permuted). Values the text leaves open (non-integral floats, numbers beyond int64) are modelled as sets."),
